@@ -331,25 +331,24 @@ func (e *handlerStore[T]) off(handler ...T) {
 		return
 	}
 
-	remove := func(slice []T, s int) []T {
-		return append(slice[:s], slice[s+1:]...)
+	// Keep the handlers that are not named. A new slice is built because
+	// removing elements from a slice while ranging over it skips elements
+	// and can slice out of range.
+	keep := func(slice []T) (kept []T) {
+	next:
+		for _, h := range slice {
+			for _, _h := range handler {
+				if h == _h {
+					continue next
+				}
+			}
+			kept = append(kept, h)
+		}
+		return
 	}
 
-	for i, h := range e.funcs {
-		for _, _h := range handler {
-			if h == _h {
-				e.funcs = remove(e.funcs, i)
-			}
-		}
-	}
-
-	for i, h := range e.funcsOnce {
-		for _, _h := range handler {
-			if h == _h {
-				e.funcsOnce = remove(e.funcsOnce, i)
-			}
-		}
-	}
+	e.funcs = keep(e.funcs)
+	e.funcsOnce = keep(e.funcsOnce)
 }
 
 func (e *handlerStore[T]) offAll() {
@@ -415,21 +414,25 @@ func (e *eventHandlerStore) off(eventName string, handler ...reflect.Value) {
 		return
 	}
 
-	remove := func(slice []*eventHandler, s int) []*eventHandler {
-		return append(slice[:s], slice[s+1:]...)
+	// Keep the handlers that are not named. A new slice is built because
+	// removing elements from a slice while ranging over it skips elements
+	// and can slice out of range.
+	keep := func(slice []*eventHandler) (kept []*eventHandler) {
+	next:
+		for _, event := range slice {
+			for _, h := range handler {
+				if event.rv.Pointer() == h.Pointer() {
+					continue next
+				}
+			}
+			kept = append(kept, event)
+		}
+		return
 	}
 
 	events, ok := e.events[eventName]
 	if ok {
-		for i, event := range events {
-			for _, h := range handler {
-				ep := event.rv.Pointer()
-				hp := h.Pointer()
-				if ep == hp {
-					events = remove(events, i)
-				}
-			}
-		}
+		events = keep(events)
 		if len(events) == 0 {
 			delete(e.events, eventName)
 		} else {
@@ -439,15 +442,7 @@ func (e *eventHandlerStore) off(eventName string, handler ...reflect.Value) {
 
 	eventsOnce, ok := e.eventsOnce[eventName]
 	if ok {
-		for i, event := range eventsOnce {
-			for _, h := range handler {
-				ep := event.rv.Pointer()
-				hp := h.Pointer()
-				if ep == hp {
-					eventsOnce = remove(eventsOnce, i)
-				}
-			}
-		}
+		eventsOnce = keep(eventsOnce)
 		if len(eventsOnce) == 0 {
 			delete(e.eventsOnce, eventName)
 		} else {
